@@ -470,48 +470,55 @@ def allocDelta : List Ev → Nat
   | .allocInc :: t => allocDelta t + 1
   | _ :: t => allocDelta t
 
-def World.step (w : World) (op : Op) (fl : List Bool) : World × Obs :=
-  let withOp (sid nest : Nat) : World × Obs :=
+def World.createOp (w : World) (impl : Impl) (random : Bool) (len : Nat) (fl : List Bool) : World × Obs :=
+  let c := create w.cfg impl random w.nextId len fl
+  let w1 := { w with nextId := w.nextId + 1, inuse := w.inuse + inuseDelta c.evs, allocs := w.allocs + allocDelta c.evs }
+  match c.sec with
+  | some s => ({ w1 with secs := w1.secs ++ [s] },
+               { res := c.res, evs := c.evs, page := some c.page, srcWiped := c.srcWiped, created := some w.secs.length })
+  | none => (w1, { res := c.res, evs := c.evs, page := some c.page, srcWiped := c.srcWiped })
+
+def World.withOp (w : World) (sid nest : Nat) (fl : List Bool) : World × Obs :=
+  match w.secs[sid]? with
+  | none => (w, { badOp := true })
+  | some s =>
+    let o := withBytes w.pf nest s fl
+    ({ w with secs := w.secs.set sid o.sec, inuse := w.inuse + inuseDelta o.evs },
+     { res := o.res, evs := o.evs, page := some o.sec.page, inside := o.inside, seen := o.seen, counter := o.sec.counter })
+
+def World.readOp (w : World) (rid k : Nat) (fl : List Bool) : World × Obs :=
+  match w.readers[rid]? with
+  | none => (w, { badOp := true })
+  | some (sid, i) =>
     match w.secs[sid]? with
     | none => (w, { badOp := true })
     | some s =>
-      let o := withBytes w.pf nest s fl
-      ({ w with secs := w.secs.set sid o.sec, inuse := w.inuse + inuseDelta o.evs },
-       { res := o.res, evs := o.evs, page := some o.sec.page, inside := o.inside, seen := o.seen, counter := o.sec.counter })
+      let o := withBytes w.pf 0 s fl
+      let rs := if o.called && o.res != .crash then readerStep s.len i k else (0, i, false)
+      ({ w with secs := w.secs.set sid o.sec, readers := w.readers.set rid (sid, rs.2.1), inuse := w.inuse + inuseDelta o.evs },
+       { res := o.res, evs := o.evs, page := some o.sec.page, inside := o.inside, seen := o.seen,
+         n := rs.1, off := i, eof := rs.2.2 && o.res == .ok, counter := o.sec.counter })
+
+def World.closeOp (w : World) (sid : Nat) (fl : List Bool) : World × Obs :=
+  match w.secs[sid]? with
+  | none => (w, { badOp := true })
+  | some s =>
+    let o := close w.pf s fl
+    ({ w with secs := w.secs.set sid o.sec, inuse := w.inuse + inuseDelta o.evs },
+     { res := o.res, evs := o.evs, page := some o.sec.page, counter := o.sec.counter })
+
+def World.step (w : World) (op : Op) (fl : List Bool) : World × Obs :=
   match op with
-  | .new impl len | .rand impl len =>
-    let random := match op with | .rand _ _ => true | _ => false
-    let c := create w.cfg impl random w.nextId len fl
-    let w1 := { w with nextId := w.nextId + 1, inuse := w.inuse + inuseDelta c.evs, allocs := w.allocs + allocDelta c.evs }
-    match c.sec with
-    | some s => ({ w1 with secs := w1.secs ++ [s] },
-                 { res := c.res, evs := c.evs, page := some c.page, srcWiped := c.srcWiped, created := some w.secs.length })
-    | none => (w1, { res := c.res, evs := c.evs, page := some c.page, srcWiped := c.srcWiped })
-  | .withB sid nest => withOp sid nest
-  | .withF sid nest => withOp sid nest
+  | .new impl len => w.createOp impl false len fl
+  | .rand impl len => w.createOp impl true len fl
+  | .withB sid nest => w.withOp sid nest fl
+  | .withF sid nest => w.withOp sid nest fl
   | .newReader sid =>
     match w.secs[sid]? with
     | none => (w, { badOp := true })
     | some _ => ({ w with readers := w.readers ++ [(sid, 0)] }, { created := some w.readers.length })
-  | .read rid k =>
-    match w.readers[rid]? with
-    | none => (w, { badOp := true })
-    | some (sid, i) =>
-      match w.secs[sid]? with
-      | none => (w, { badOp := true })
-      | some s =>
-        let o := withBytes w.pf 0 s fl
-        let rs := if o.called && o.res != .crash then readerStep s.len i k else (0, i, false)
-        ({ w with secs := w.secs.set sid o.sec, readers := w.readers.set rid (sid, rs.2.1) },
-         { res := o.res, evs := o.evs, page := some o.sec.page, inside := o.inside, seen := o.seen,
-           n := rs.1, off := i, eof := rs.2.2 && o.res == .ok, counter := o.sec.counter })
-  | .close sid =>
-    match w.secs[sid]? with
-    | none => (w, { badOp := true })
-    | some s =>
-      let o := close w.pf s fl
-      ({ w with secs := w.secs.set sid o.sec, inuse := w.inuse + inuseDelta o.evs },
-       { res := o.res, evs := o.evs, page := some o.sec.page, counter := o.sec.counter })
+  | .read rid k => w.readOp rid k fl
+  | .close sid => w.closeOp sid fl
   | .isClosed sid =>
     match w.secs[sid]? with
     | none => (w, { badOp := true })
@@ -520,6 +527,20 @@ def World.step (w : World) (op : Op) (fl : List Bool) : World × Obs :=
 def World.run (w : World) : List (Op × List Bool) → World
   | [] => w
   | (op, fl) :: t => World.run (w.step op fl).1 t
+
+/-- the observations of an operation sequence. -/
+def World.trace (w : World) : List (Op × List Bool) → List Obs
+  | [] => []
+  | (op, fl) :: t => (w.step op fl).2 :: World.trace (w.step op fl).1 t
+
+/-- repeated `Close()` attempts, each under its own faults: the secret afterwards and the sum of
+the in-use counter movements. -/
+def closeAttempts (pf : Proto) (s : Sec) : List (List Bool) → Sec × Int
+  | [] => (s, 0)
+  | fl :: t =>
+    let o := close pf s fl
+    let r := closeAttempts pf o.sec t
+    (r.1, inuseDelta o.evs + r.2)
 
 /-- number of secrets that were created and are not closed. -/
 def live : List Sec → Int
